@@ -178,3 +178,83 @@ def rule07_generator(repo):
     return text, [f'{len(lets)} statements']
 
 MODULES.append({'name': 'Rule07', 'src': 'lentil/detector.py', 'generator': _robust(rule07_generator, 'rule07_dark_current rate'), 'props': ['C18']})
+
+
+# ---------------------------------------------------------------------------------------------- shot_noise guards / dark_current frame
+def _guard(test):
+    """`np.min(img) < c` / `np.max(img) > c` -> Lean Bool over (mn, mx)"""
+    if not (isinstance(test, ast.Compare) and len(test.ops) == 1 and isinstance(test.left, ast.Call) and [ast.unparse(a) for a in test.left.args] == ['img']
+            and not test.left.keywords and isinstance(test.comparators[0], ast.Constant)): raise Refuse(f'shot_noise guard: {ast.unparse(test)}')
+    red = {'np.min': 'mn', 'numpy.min': 'mn', 'np.max': 'mx', 'numpy.max': 'mx'}.get(ast.unparse(test.left.func))
+    if red is None: raise Refuse(f'shot_noise guard reduces with {ast.unparse(test.left.func)}')
+    c = test.comparators[0]
+    cl = '0' if (isinstance(c.value, int) and c.value == 0) else _lit(ast.unparse(c))
+    if isinstance(test.ops[0], ast.Lt): return f'decide ({red} < {cl})'
+    if isinstance(test.ops[0], ast.Gt): return f'decide ({cl} < {red})'
+    raise Refuse(f'shot_noise guard comparison: {ast.unparse(test)}')
+
+def _raises_value_error(body):
+    return len(body) == 1 and isinstance(body[0], ast.Raise) and isinstance(body[0].exc, ast.Call) and ast.unparse(body[0].exc.func) == 'ValueError'
+
+def shot_dark_generator(repo):
+    tree = ast.parse(open(os.path.join(repo, 'lentil', 'detector.py')).read())
+    fns = {n.name: n for n in tree.body if isinstance(n, ast.FunctionDef)}
+    if 'shot_noise' not in fns or 'dark_current' not in fns: raise Refuse('shot_noise / dark_current not found')
+    f = fns['shot_noise']
+    disp = [st for st in f.body if isinstance(st, ast.If) and ast.unparse(st.test) == "method == 'poisson'"]
+    if len(disp) != 1: raise Refuse("shot_noise: `if method == 'poisson'` dispatch")
+    # --- poisson: try: img = rng.poisson(img) except ValueError: if g1: raise ValueError elif g2: raise ValueError else: raise e
+    tr = disp[0].body
+    if not (len(tr) == 1 and isinstance(tr[0], ast.Try) and len(tr[0].body) == 1 and len(tr[0].handlers) == 1 and ast.unparse(tr[0].handlers[0].type) == 'ValueError'
+            and not tr[0].orelse and not tr[0].finalbody): raise Refuse('shot_noise poisson branch: try/except ValueError expected')
+    pdraw = ast.unparse(tr[0].body[0])
+    if pdraw != 'img = rng.poisson(img)': raise Refuse(f'poisson draw: {pdraw}')
+    pg, node = [], tr[0].handlers[0].body
+    while True:
+        if not (len(node) == 1 and isinstance(node[0], ast.If) and _raises_value_error(node[0].body)): raise Refuse('poisson except body: chain of guards raising ValueError expected')
+        pg.append(_guard(node[0].test)); node = node[0].orelse
+        if len(node) == 1 and isinstance(node[0], ast.Raise) and not isinstance(node[0].exc, ast.Call): break     # `raise e`
+    # --- gaussian: guards first, then the draw
+    gg, gdraw = [], None
+    for st in disp[0].orelse:
+        if isinstance(st, ast.If):
+            if gdraw is not None or st.orelse or not _raises_value_error(st.body): raise Refuse(f'gaussian guard: {ast.unparse(st)[:60]}')
+            gg.append(_guard(st.test))
+        elif isinstance(st, ast.With):
+            asg = [n for n in ast.walk(st) if isinstance(n, ast.Assign) and ast.unparse(n.targets[0]) == 'img']
+            if len(asg) != 1: raise Refuse('gaussian draw')
+            gdraw = ast.unparse(asg[0].value)
+        else: raise Refuse(f'gaussian branch statement: {ast.unparse(st)[:60]}')
+    if gdraw != 'np.asarray(rng.normal(loc=img, scale=np.sqrt(img)), dtype=int)': raise Refuse(f'gaussian draw: {gdraw}')
+    ret = [st for st in f.body if isinstance(st, ast.Return)]
+    if len(ret) != 1 or ast.unparse(ret[0].value) != 'np.floor(img)': raise Refuse('shot_noise return')
+    sig = '{K : Type} [LT K] [DecidableLT K] [Zero K] (lit : Nat → Bool → Nat → K) (mn mx : K) : Bool'
+    out = ['/-- `shot_noise(method=\'poisson\')`: the frame is refused with ValueError (after NumPy refused the draw) when … of `mn = np.min(img)`, `mx = np.max(img)` -/\n'
+           f'def shotGuardPoisson {sig} := {" || ".join(pg)}\n',
+           '/-- `shot_noise(method=\'gaussian\')`: guards evaluated BEFORE the draw -/\n'
+           f'def shotGuardGaussian {sig} := {" || ".join(gg)}\n']
+    # --- dark_current: if fpn_factor > 0: rng…; fpn = rng.lognormal(mean=1.0, sigma=fpn_factor, size=shape) else: fpn = 1 ; dark = np.floor(rate*np.ones(shape)*fpn)
+    d = fns['dark_current']
+    body = [st for st in d.body if not (isinstance(st, ast.Expr) and isinstance(st.value, ast.Constant))]
+    if not (len(body) == 3 and isinstance(body[0], ast.If) and isinstance(body[1], ast.Assign) and isinstance(body[2], ast.Return) and ast.unparse(body[2].value) == 'dark'): raise Refuse('dark_current body')
+    t = body[0].test
+    if not (isinstance(t, ast.Compare) and ast.unparse(t.left) == 'fpn_factor' and isinstance(t.ops[0], ast.Gt) and ast.unparse(t.comparators[0]) == '0'): raise Refuse(f'dark_current test {ast.unparse(t)}')
+    fp = [st for st in body[0].body if isinstance(st, ast.Assign) and ast.unparse(st.targets[0]) == 'fpn']
+    if len(fp) != 1 or ast.unparse(fp[0].value) != 'rng.lognormal(mean=1.0, sigma=fpn_factor, size=shape)': raise Refuse('dark_current fixed-pattern draw')
+    if not (len(body[0].orelse) == 1 and ast.unparse(body[0].orelse[0]) == 'fpn = 1'): raise Refuse('dark_current: else fpn = 1')
+    v = body[1].value
+    if not (ast.unparse(body[1].targets[0]) == 'dark' and isinstance(v, ast.Call) and ast.unparse(v.func) in ('np.floor', 'numpy.floor') and len(v.args) == 1): raise Refuse('dark_current frame')
+    def dx(e):
+        src = ast.unparse(e)
+        if src == 'rate': return 'rate'
+        if src == 'fpn': return 'fpn'
+        if src in ('np.ones(shape)', 'numpy.ones(shape)'): return 'ones'
+        if isinstance(e, ast.BinOp) and isinstance(e.op, ast.Mult): return f'({dx(e.left)} * {dx(e.right)})'
+        raise Refuse(f'dark_current frame expression: {src}')
+    out += ['/-- `dark_current`: fixed-pattern draws are used when -/\n'
+            'def darkUsesFpn {K : Type} [LT K] [DecidableLT K] [Zero K] (fpn_factor : K) : Bool := decide (0 < fpn_factor)\n',
+            '/-- `dark_current`: argument of `np.floor` (per pixel; `ones` = entry of `np.ones(shape)`, `fpn` = the draw or the constant 1) -/\n'
+            f'def darkFloorArg {{K : Type}} [Mul K] (rate ones fpn : K) : K := {dx(v.args[0])}\n']
+    return '\n'.join(out), [f'poisson guards {pg} gaussian guards {gg} dark {dx(v.args[0])}']
+
+MODULES.append({'name': 'ShotDark', 'src': 'lentil/detector.py', 'generator': _robust(shot_dark_generator, 'shot_noise guards / dark_current frame'), 'props': ['C18']})
